@@ -4181,13 +4181,20 @@ func checkGatewayWildcardsAndUpdate(tx WriteTxn, idx uint64, svc *structs.Servic
 // gateway-services table.
 func checkGatewayAndUpdate(tx WriteTxn, idx uint64, svc *structs.ServiceName, kind structs.GatewayServiceKind) error {
 	sn := structs.ServiceName{Name: svc.Name, EnterpriseMeta: svc.EnterpriseMeta}
-	svcGateways, err := tx.First(tableGatewayServices, indexService, sn)
+	svcGateways, err := tx.Get(tableGatewayServices, indexService, sn)
 	if err != nil {
 		return fmt.Errorf("failed gateway lookup for %q: %s", svc.Name, err)
 	}
 
-	if service, ok := svcGateways.(*structs.GatewayService); ok && service != nil {
-		// Copy the wildcard mapping and modify it
+	// Collect first, update afterwards, so we don't trash the iterator.
+	var rows []*structs.GatewayService
+	for raw := svcGateways.Next(); raw != nil; raw = svcGateways.Next() {
+		if service, ok := raw.(*structs.GatewayService); ok && service != nil {
+			rows = append(rows, service)
+		}
+	}
+	for _, service := range rows {
+		// Copy the mapping and modify it
 		gatewaySvc := service.Clone()
 
 		gatewaySvc.Service = structs.NewServiceName(svc.Name, &svc.EnterpriseMeta)
